@@ -85,6 +85,24 @@ def mpqsPoly (n : Nat) (d r : Nat) (so : Int) (fb : List Prime) : String :=
       | none => acc ++ " panic"
       | some ev => acc ++ s!" ev={ev}"
 
+open Ymq.MpqsPoly in
+/-- one block of MPQS polynomials: the list of `sieve_for_polys`, then for the first `maxpolys` of them the polynomial
+of `make_poly` and the root table of `prepare_prime` with the inverses `batch_inversion` provides -/
+def mpqsBlock (n : Nat) (so : Int) (fb : List Prime) (dbase dstride maxpolys : Nat) : String :=
+  let drs := sieveForPolys n dbase dstride
+  let acc := s!"drs={showPairs drs}"
+  (drs.take maxpolys).foldl (fun acc (dr : Nat × Nat) =>
+    if acc.endsWith "panic" then acc
+    else
+      match makePoly n dr.1 dr.2 with
+      | none => acc ++ " panic"
+      | some pol =>
+        let dinvs := fb.map fun q => dinvModp dr.1 q.p
+        match allSome (List.zipWith (fun (q : Prime) di => preparePrime pol q.p q.r di so) fb dinvs) with
+        | none => acc ++ " panic"
+        | some roots =>
+          acc ++ s!" M {pol.a} {pol.b} {pol.c} {pol.bb} {pol.d} {pol.dinv} roots={showPairs roots}") acc
+
 open Ymq.QsRoots in
 def qsRoots (n : Nat) (fb : List Prime) : String :=
   match QsRoots.new n with
@@ -106,6 +124,17 @@ def siqsSelect (n : Int) (nfacs mm want fuel : Nat) (fb : List Prime) : String :
     | none => acc ++ " a-panic"
     | some as => acc ++ s!" as={showList as}"
 
+open Ymq.SiqsSelect in
+/-- outcome of the selection in the terms of the `siqs_walk` op: `sel-panic` (either function panics or does not
+terminate within the fuel), `no-a` (empty list), `ok` -/
+def siqsSelectClass (n : Int) (nfacs mm want fuel : Nat) (fb : List Prime) : String :=
+  match selectFactors fb n nfacs mm with
+  | none => "sel-panic"
+  | some (tgt, sel) =>
+    match selectA n tgt nfacs want (sel.map (·.p)) fuel with
+    | none => "sel-panic"
+    | some as => if as.isEmpty then "no-a" else "ok"
+
 def handlePoly : Handler
   | ["siqs_walk_m", n, mm, so, fb, sq, sel, selr, a, step, tail, maxpolys] => do
     let n ← parseInt n; let mm ← parseNat mm; let so ← parseInt so
@@ -118,6 +147,10 @@ def handlePoly : Handler
     let n ← parseNat n; let d ← parseNat d; let r ← parseNat r; let so ← parseInt so
     let fb ← parseNatList fb; let sq ← parseNatList sq
     some (mpqsPoly n d r so (mkFb fb sq))
+  | ["mpqs_block_m", n, so, fb, sq, dbase, dstride, maxpolys] => do
+    let n ← parseNat n; let so ← parseInt so; let fb ← parseNatList fb; let sq ← parseNatList sq
+    let dbase ← parseNat dbase; let dstride ← parseNat dstride; let maxpolys ← parseNat maxpolys
+    some (mpqsBlock n so (mkFb fb sq) dbase dstride maxpolys)
   | ["mpqs_batchinv_m", ds, fb] => do
     let ds ← parseNatList ds; let fb ← parseNatList fb
     some (" ".intercalate (ds.map fun d => showList (fb.map fun p => MpqsPoly.dinvModp d p)))
@@ -125,6 +158,10 @@ def handlePoly : Handler
     let n ← parseInt n; let nfacs ← parseNat nfacs; let mm ← parseNat mm; let want ← parseNat want
     let fuel ← parseNat fuel; let fb ← parseNatList fb; let sq ← parseNatList sq
     some (siqsSelect n nfacs mm want fuel (mkFb fb sq))
+  | ["siqs_select_class_m", n, nfacs, mm, want, fuel, fb, sq] => do
+    let n ← parseInt n; let nfacs ← parseNat nfacs; let mm ← parseNat mm; let want ← parseNat want
+    let fuel ← parseNat fuel; let fb ← parseNatList fb; let sq ← parseNatList sq
+    some (siqsSelectClass n nfacs mm want fuel (mkFb fb sq))
   | ["qs_roots_m", n, fb, sq] => do
     let n ← parseNat n; let fb ← parseNatList fb; let sq ← parseNatList sq
     some (qsRoots n (mkFb fb sq))
